@@ -45,6 +45,10 @@ def gen_file(r):
         if r.random() < 0.4:
             hdr[k] = r.choice(HOSTILE_HEADERS)
     rows[0] = hdr
+    if r.random() < 0.1 and len(rows) > 1 and rows[-1]:
+        # one very large cell (beyond the csv module's default field size limit, which is process-wide state)
+        rows[-1] = list(rows[-1])
+        rows[-1][-1] = "L" * 140000
     text = lang.rows_to_text(rows)
     name = hashlib.sha1(text.encode()).hexdigest()[:16] + ".csv"
     return name, text, rows
@@ -98,7 +102,7 @@ def run_case(case, agg):
     jobs = case["jobs"]
     seq_jobs = [{"text": j["text"], "mode": "csvpaths", "new_instance": (i % 2 == 1)} for i, j in enumerate(jobs)]
     seq = run_process(seq_jobs + seq_jobs[:1], seqdir, agg)  # the last entry repeats job 0 at the end of the sequence
-    w = {"jobs": [j["text"] for j in jobs], "files": {n: t for n, t, _ in case["files"]}}
+    w = {"jobs": [j["text"] for j in jobs], "files": {n: (t if len(t) < 5000 else t[:300] + f"... ({len(t)} characters)") for n, t, _ in case["files"]}}
     for i, j in enumerate(jobs):
         # cold twin: fresh process, empty cache, this job first
         tdir = os.path.join(base, f"twin{i}")
